@@ -7,11 +7,12 @@ import os
 import re
 import subprocess
 
-from common import HARNESS_BIN, ToolError, WORK, write_replay
+from common import HARNESS_BIN_REL, HARNESS_BIN, ToolError, WORK, write_replay
 
 
-def run_probe(which, args, out):
-    cmd = [HARNESS_BIN, "probe", which] + [str(a) for a in args]
+def run_probe(which, args, out, rel=False):
+    """rel: use the build with release semantics (debug assertions / overflow checks off)."""
+    cmd = [HARNESS_BIN_REL if rel else HARNESS_BIN, "probe", which] + [str(a) for a in args]
     with open(out, "w") as f:
         p = subprocess.run(cmd, stdout=f, stderr=subprocess.PIPE, text=True, timeout=1800)
     if p.returncode != 0:
@@ -78,6 +79,16 @@ def count(chk, recs, nontrivial):
         chk.sample(r)
 
 
+def rel_pass(chk, which, args, module, inv, extra_inv=(), env_inv=None, constants=None):
+    """The same probes once more with the build that has release semantics (debug assertions and
+    overflow checks compiled out): what a user's optimised build does."""
+    out = os.path.join(WORK, "probe_%s_%s_rel.ndjson" % (chk.pid, which))
+    recs = run_probe(which, args, out, rel=True)
+    chk.evaluations += len(recs)
+    found = validate_records(chk, module, out, inv, which + "_rel", constants=constants, extra_inv=extra_inv)
+    report(chk, found, which + " (release semantics)", args, env_inv=env_inv)
+
+
 def c16(chk, tier):
     chk.extra["rule"] = ("one forked probe per (signal number, context): the kernel's default action (native) and "
                          "emulate_default_handler from normal context, on a second thread, with the signal masked, with "
@@ -88,6 +99,7 @@ def c16(chk, tier):
     count(chk, recs, lambda r: (r["e"], r.get("sig"), r.get("ctx"), r.get("status")))
     found = validate_records(chk, "TraceDefault.tla", out, "V_C16", "default", extra_inv=["V_Env"])
     report(chk, found, "default", args, env_inv="V_Env")
+    rel_pass(chk, "default", args, "TraceDefault.tla", "V_C16", extra_inv=["V_Env"], env_inv="V_Env")
     # the procedure model with the table the code exhibits
     known = {r["sig"] for r in recs if r["e"] == "name" and r["lib"]}
     kind = {}
@@ -140,6 +152,7 @@ def c15(chk, tier):
     count(chk, recs, lambda r: (r["order"], r["script"], r["exit"], r["kind"], r["status"]))
     found = validate_records(chk, "TraceFlag.tla", out, "V_C15", "flags")
     report(chk, found, "flags", args)
+    rel_pass(chk, "flags", args, "TraceFlag.tla", "V_C15")
     r = chk.model_check("Flag.tla", dict(MaxLen=6 if tier == "quick" else 8), spec="FSpec",
                         invariants=["FlagsSetAfterDelivery", "ShutdownIffArmed", "FlagFirstDiesAtOnce",
                                     "FlagOnlyNeverDies", "ArmedStaysArmed", "DefaultIffArmed",
@@ -153,12 +166,13 @@ def c14(chk, tier):
     chk.extra["rule"] = ("one forked probe per (entry point, number, fresh / already used process): outcome class, "
                          "dispositions of all 64 signals before/after, captured resources, usability afterwards; "
                          "distinct = distinct (entry, number class, outcome)")
-    args = ["--all"] if tier == "thorough" else []
+    args = ["--wide"] if tier == "thorough" else ["--all"]
     out = os.path.join(WORK, "probe_C14.ndjson")
     recs = run_probe("reject", args, out)
     count(chk, recs, lambda r: (r["entry"], r["n"], r["status"], r["r"].get("class")))
     found = validate_records(chk, "TraceReject.tla", out, "V_C14", "reject")
     report(chk, found, "reject", args)
+    rel_pass(chk, "reject", args, "TraceReject.tla", "V_C14")
 
 
 def c13(chk, tier):
@@ -171,6 +185,7 @@ def c13(chk, tier):
     count(chk, recs, lambda r: (r.get("kind"), r.get("fill"), r.get("burst"), r["status"], r.get("what")))
     found = validate_records(chk, "TracePipe.tla", out, "V_C13", "pipe")
     report(chk, found, "pipe", args)
+    rel_pass(chk, "pipe", args, "TracePipe.tla", "V_C13")
     nb = {r["kind"]: r["r"].get("nonblock") for r in recs
           if r["e"] == "pipe" and r["status"] == "exited:0" and "nonblock" in r["r"]}
     if len(nb) == 4:
@@ -224,6 +239,7 @@ def c12(chk, tier):
     count(chk, recs, lambda r: (r["hist"], r["raw"], r["status"], json.dumps(r["r"].get("steps"))))
     found = validate_records(chk, "TraceSignals.tla", out, "V_C12", "signals")
     report(chk, found, "signals", args)
+    rel_pass(chk, "signals", args, "TraceSignals.tla", "V_C12")
     import p_iterator
     p_iterator.run_iterator(chk, tier)
 
@@ -240,3 +256,4 @@ def c17(chk, tier):
                                 r.get("cause", r.get("r", {}).get("cause") if isinstance(r.get("r"), dict) else None)))
     found = validate_records(chk, "TraceOrigin.tla", out, "V_C17", "origin")
     report(chk, found, "origin", args)
+    rel_pass(chk, "origin", args, "TraceOrigin.tla", "V_C17")
